@@ -6,5 +6,7 @@ CONSTANTS
   MaxLits = 0
   Ordered = FALSE
   AllowMissing = FALSE
+  DiagChoices = {0}
+  Rounds = 1
 INVARIANTS Acyclic CycleRejected DagBuilds ParsedOnce TopoOK EmitTerminal
 CHECK_DEADLOCK FALSE
